@@ -22,3 +22,4 @@ import RenetVerif.Lemmas.SrcEquiv.Conn
 import RenetVerif.Lemmas.SrcEquiv.ConnSend
 import RenetVerif.Lemmas.SrcEquiv.ConnRecv
 import RenetVerif.Lemmas.SrcEquiv.Server
+import RenetVerif.Lemmas.SrcEquiv.NcCodec
